@@ -287,6 +287,7 @@ fn run_case_tls(case: &Case) -> Option<Obs> {
         seqs: (1, 2),
         auth_reject: case.auth_reject,
         record_per_command: h & 128 == 0,
+        write_fault: None,
     };
     let o = crate::props::c18::run_tls(m, &c).ok()?;
     if o.world.client_error.is_some() || o.world.deadlock || o.world.wedged {
